@@ -206,7 +206,9 @@ func runC14(c *Check) {
 	c.periodScaling()
 	c.floatQuotients(legacy)
 	c.signalFrameRemoval()
+	c.signalFrameThreshold()
 	c.mergedMappingAttributes()
+	c.mergeWithLastKept()
 }
 
 // signalFrameRemoval (R6): the binary CPU parser removes the frame at position 1 only from
